@@ -207,3 +207,17 @@ Example C02_ex_operators_defined :
   | None => false
   end = true.
 Proof. vm_compute. reflexivity. Qed.
+
+(* the boundary between gene::operator== and the order cse() needs: three
+   ephemeral constants 1, 1.000008, 1.000016 -- neighbours are almost_equal
+   (1e-5 relative tolerance), the outer pair is not, so a comparator built on
+   almost_equal is not a strict weak ordering; the exact "<" of the repaired
+   gene_cmp distinguishes all three and meets the hypothesis of C02_cse_wf *)
+Definition ex_na : f64 := F64.of_bits 0x3FF0000000000000.
+Definition ex_nb : f64 := F64.of_bits 0x3FF00008637BD05B.
+Definition ex_nc : f64 := F64.of_bits 0x3FF00010C6F7A0B6.
+Example C02_ex_tolerance_boundary :
+  almost_equal ex_na ex_nb = true /\ almost_equal ex_nb ex_nc = true /\ almost_equal ex_na ex_nc = false /\
+  par_incomp ex_na ex_nb = false /\ par_incomp ex_nb ex_nc = false /\ par_incomp ex_na ex_nc = false /\
+  par_incomp ex_nb ex_nb = true.
+Proof. vm_compute. repeat split; reflexivity. Qed.
